@@ -380,6 +380,7 @@ func gen(c *harness.C) []harness.Case {
 	}
 	var cases []harness.Case
 	cases = append(cases, threadCases(c)...)
+	cases = append(cases, stallCases()...)
 	for _, k := range cfgs {
 		k := k
 		// fault-free run to learn the send counts (list time)
